@@ -26,8 +26,10 @@ handled by the same branches except where the flag `gen` is consulted. Go map it
 order of the member list of a `JV.obj` (every theorem quantifies over it; the harness tries the orders).
 Keyed/Indexed collections and reflected types are not modelled.
 
-Deviations of the code from property C13 are carried explicitly, one flag each (`Dev`); `Dev.current`
-is the code as it is, `Dev.fixed` has every deviation off. -/
+Deviations of the code from property C13 are carried explicitly, one flag each (`Dev`): `Dev.before` is the
+code as it was when the family was built (every deviation on), `Dev.current` the code as it is now — the
+eight repaired deviations off (/repo 18e5d18 076ef8c a7f7cdd 0eb0265 f263838 99212c8 52aa03a), the pinned
+inclusive reading of slices still on —, `Dev.fixed` has every deviation off. -/
 namespace OjgVerif.JPMut
 open OjgVerif OjgVerif.JPath
 
@@ -64,7 +66,11 @@ structure Dev where
   rootScalar : Bool
   deriving DecidableEq, Repr
 
-def Dev.current : Dev := ⟨true, true, true, true, true, true, true, true, true⟩
+/-- the code before the C13 repairs: every deviation present -/
+def Dev.before : Dev := ⟨true, true, true, true, true, true, true, true, true⟩
+/-- the code as it is: only the pinned inclusive reading of slices is left (known finding C13-slice-inclusive).
+`OjgVerif.C13.current_is_source` ties every other flag to the patched source lines. -/
+def Dev.current : Dev := ⟨true, false, false, false, false, false, false, false, false⟩
 def Dev.fixed : Dev := ⟨false, false, false, false, false, false, false, false, false⟩
 
 /-- error classes (the texts of set.go / modify.go / remove.go) -/
